@@ -44,6 +44,18 @@ def boundary_scripts():
                                  "try { throw 1 } catch %s { return %s }\nreturn 0", "f1 := func(%s) { return %s }\nreturn f1(2)",
                                  "f1 := func() { %s, y1 := [1, 2]; return [%s, y1] }\nreturn f1()", "if true { %s, y1 := [1, 2]; return [%s, y1] }\nreturn 0"]):
             S.append(("redef-%s-%d" % (kind, j), decl + "\n" + use % (nm, nm) + "\n"))
+    # every list of names or expressions with 0..5 elements
+    for n in range(0, 6):
+        ids = ", ".join("k%d" % i for i in range(n))
+        S.append(("forin-%d" % n, "for %s in [1, 2] { }\nreturn 1\n" % ids))
+        S.append(("forin-fn-%d" % n, "f := func() { for %s in {a: 1} { return 2 } }\nreturn f()\n" % ids))
+        S.append(("define-%d" % n, "%s := [1, 2, 3]\nreturn 1\n" % ids))
+        S.append(("assign-%d" % n, "var (k0, k1, k2, k3, k4)\n%s = [1, 2, 3]\nreturn 1\n" % ids))
+        S.append(("var-%d" % n, "var (%s)\nreturn 1\n" % ids))
+        S.append(("global-%d" % n, "global (%s)\nreturn 1\n" % ids))
+        S.append(("catch-%d" % n, "try { throw 1 } catch %s { return 2 }\nreturn 1\n" % ids))
+        S.append(("return-%d" % n, "return %s\n" % ids))
+        S.append(("import-%d" % n, "return import(%s)\n" % ", ".join('"m1"' for _ in range(n))))
     S += [("rem0", "return 1 % 0\n"), ("rem00", "return 0%0\n"), ("shlneg", "return 1 << -1\n"), ("const-paren-brace", "const(}"),
           ("var-paren-brace", "var(}"), ("param-paren-brace", "param(}"), ("const-x", "const(x=1}"), ("global-paren", "global(}"),
           ("cyclic", "return import(\"c1\")\n"), ("self-import", "return import(\"s1\")\n"), ("unknown-import", "return import(\"nope\")\n")]
@@ -52,12 +64,17 @@ def boundary_scripts():
 def mutate_src(rng, src):
     b = bytearray(src.encode())
     for _ in range(rng.randrange(1, 4)):
-        k = rng.randrange(5)
+        k = rng.randrange(6)
         if not b: b = bytearray(b"x"); continue
         i = rng.randrange(len(b))
         if k == 0: del b[i]
         elif k == 1: b.insert(i, rng.choice(b"(){}[],;:=+-*/%&|^<>!.\"'`\n\\ \t0aZ_\x00\xff"))
         elif k == 2: b[i] = rng.randrange(256)
+        elif k == 5:
+            # one more element in front of an identifier: lists one longer than the grammar allows
+            starts = [p for p in range(1, len(b)) if chr(b[p]).isalpha() and chr(b[p - 1]) in " (\n"]
+            if starts:
+                p = rng.choice(starts); b[p:p] = b"q9, "
         elif k == 3:
             j = rng.randrange(len(b)); i, j = min(i, j), max(i, j); del b[i:j]
         else:
@@ -167,7 +184,7 @@ def run(rep, br, proofs, rng, tier):
     okc = sum(v for k, v in classes.items() if k == "ok")
     rep.coverage.update({
         "evaluations": len(cases) + lexcount, "short_strings_compiled": lexcount, "distinct_nontrivial": len(set(c["line"].split(" ", 3)[3] for c in cases)),
-        "rule": "boundary scripts at every operand-width limit (255/256/257 locals, parameters, destructured names, 254..257 call arguments and selectors, 65535..65537 literal elements / constants, deep nesting, constant errors, unterminated declaration groups, import cycles of length 1-4, unknown imports) x optimizer off/on/budget 1/3 x trace x fresh / re-used symbol table / Eval fragment; generated valid and mutated near-valid programs; token soup and arbitrary byte strings; every byte string up to length %d over the 13 lexically significant bytes (/ * CR LF ` \" ' \\ a 0 . space); every successful Bytecode is checked function by function by the Coq validator wf_function; distinct = distinct (configuration, source)" % (5 if tier == "quick" else 6),
+        "rule": "boundary scripts at every operand-width limit (255/256/257 locals, parameters, destructured names, 254..257 call arguments and selectors, 65535..65537 literal elements / constants, deep nesting, constant errors, unterminated declaration groups, import cycles of length 1-4, unknown imports, every list of names or expressions (for-in, :=, =, var, global, catch, return, import) with 0..5 elements, a name bound again by every binding form) x optimizer off/on/budget 1/3 x trace x fresh / re-used symbol table / Eval fragment; generated valid and mutated near-valid programs; token soup and arbitrary byte strings; every byte string up to length %d over the 13 lexically significant bytes (/ * CR LF ` \" ' \\ a 0 . space); every successful Bytecode is checked function by function by the Coq validator wf_function; distinct = distinct (configuration, source)" % (5 if tier == "quick" else 6),
         "samples": [cases[0]["line"][:200], cases[len(cases)//2]["line"][:300], cases[-1]["line"][:200]],
         "outcome_classes": classes, "functions_validated": len(wfcases), "functions_rejected_by_validator": len(bad_wf),
         "hangs_or_crashes": len(culprits), "oracle_failures": len(fails)})
